@@ -267,3 +267,78 @@ fn u9_arb_gen_bool_both() {
     let b1 = GenerationSource::Arbitrary(&mut u1).gen_bool();
     assert!(b0 != b1, "[C12] the FRAME coin flip is stuck");
 }
+
+// ---- U0: cross-checks of the std specs the Verus shim (contracts/shim.rs) assumes -------------------
+// Each harness runs the REAL std function on every value of its domain and compares with the
+// executable form of the spec the shim states.
+use crate::protocol::Version;
+
+fn any_version() -> Version {
+    let k: u8 = kani::any();
+    kani::assume(k <= 5);
+    match k { 0 => Version::V0, 1 => Version::V1, 2 => Version::V2, 3 => Version::V3, 4 => Version::V4, _ => Version::V5 }
+}
+fn ver_num(v: Version) -> u8 {
+    match v { Version::V0 => 0, Version::V1 => 1, Version::V2 => 2, Version::V3 => 3, Version::V4 => 4, Version::V5 => 5 }
+}
+
+#[kani::proof]
+fn u0_byte_order() {
+    let x: u32 = kani::any();
+    let b = x.to_le_bytes();
+    assert!((b[0] as u32) | ((b[1] as u32) << 8) | ((b[2] as u32) << 16) | ((b[3] as u32) << 24) == x, "[U0] u32::to_le_bytes is not little endian");
+    assert!(u32::from_le_bytes(b) == x, "[U0] u32 le round trip");
+    let y: u16 = kani::any();
+    let c = y.to_le_bytes();
+    assert!((c[0] as u16) + 256 * (c[1] as u16) == y && u16::from_le_bytes(c) == y, "[U0] u16 le");
+    let z: u64 = kani::any();
+    let d = z.to_le_bytes();
+    let mut acc: u64 = 0;
+    let mut i = 0;
+    while i < 8 { acc |= (d[i] as u64) << (8 * i); i += 1; }
+    assert!(acc == z && u64::from_le_bytes(d) == z, "[U0] u64 le");
+    let w: i32 = kani::any();
+    assert!(u32::from_le_bytes(w.to_le_bytes()) == w as u32 && i32::from_le_bytes(w.to_le_bytes()) == w, "[U0] i32 le");
+    let f: f64 = kani::any();
+    assert!(f64::from_be_bytes(f.to_be_bytes()).to_bits() == f.to_bits(), "[U0] f64 be round trip");
+}
+
+#[kani::proof]
+fn u0_saturating_and_min() {
+    let (a, b): (u8, u8) = (kani::any(), kani::any());
+    assert!(a.saturating_add(b) as u32 == core::cmp::min(a as u32 + b as u32, 255), "[U0] u8::saturating_add");
+    let (c, d): (u16, u16) = (kani::any(), kani::any());
+    assert!(c.saturating_add(d) as u32 == core::cmp::min(c as u32 + d as u32, 65535), "[U0] u16::saturating_add");
+    let (x, y): (usize, usize) = (kani::any(), kani::any());
+    assert!(x.saturating_sub(y) == if x >= y { x - y } else { 0 }, "[U0] usize::saturating_sub");
+    assert!(x.checked_sub(y) == if x >= y { Some(x - y) } else { None }, "[U0] usize::checked_sub");
+    assert!(x.min(y) == if x <= y { x } else { y }, "[U0] usize::min");
+}
+
+#[kani::proof]
+fn u0_version_order_and_cast() {
+    let (a, b) = (any_version(), any_version());
+    assert!((a >= b) == (ver_num(a) >= ver_num(b)), "[U0] derived PartialOrd of Version is declaration order");
+    assert!((a == b) == (ver_num(a) == ver_num(b)), "[U0] derived PartialEq of Version");
+    assert!(a as u8 == ver_num(a), "[U0] `version as u8` is the protocol number");
+    assert!(Version::try_from(ver_num(a) as usize).is_ok(), "[U0] Version::try_from accepts 0..=5");
+}
+
+#[kani::proof]
+#[kani::unwind(14)]
+fn u0_copy_le_u64_into_vec() {
+    // v[p..p + 8].copy_from_slice(&x.to_le_bytes()) on a 12-byte vector, every p that fits
+    let init: [u8; 12] = kani::any();
+    let mut v = init.to_vec();
+    let p: usize = kani::any();
+    kani::assume(p <= 4);
+    let x: u64 = kani::any();
+    v[p..p + 8].copy_from_slice(&x.to_le_bytes());
+    assert!(v.len() == 12, "[U0] copy_from_slice changes the length");
+    let mut i = 0;
+    while i < 12 {
+        if i < p || i >= p + 8 { assert!(v[i] == init[i], "[U0] copy_from_slice touches bytes outside the range"); }
+        else { assert!(v[i] == (x >> (8 * (i - p))) as u8, "[U0] copy_from_slice bytes"); }
+        i += 1;
+    }
+}
